@@ -15,7 +15,7 @@ NOTE_CLAUSES = ("note_unregistered", "note_cow_instead_of_refusal", "fp_memo")
 
 # depth of the emitted (replayed) instance per facet and tier: (cfg, MaxDepth, variants)
 GEN = {
-    "alias":  {"quick": ("MC_Heap_alias_quick.cfg", 5, 1),  "thorough": ("MC_Heap_alias_quick.cfg", 7, 2)},
+    "alias":  {"quick": ("MC_Heap_alias_quick.cfg", 5, 1),  "thorough": ("MC_Heap_alias_quick.cfg", 7, 1)},
     "tables": {"quick": ("MC_Heap_tables_quick.cfg", 5, 1), "thorough": ("MC_Heap_tables_quick.cfg", 6, 2)},
     "tables2": {"quick": ("MC_Heap_tables2_gen.cfg", 4, 1), "thorough": ("MC_Heap_tables2_gen.cfg", 5, 2)},
     "tables2deep": {"quick": ("MC_Heap_tables2_gen.cfg", 5, 1), "thorough": ("MC_Heap_tables2_gen.cfg", 6, 1)},
